@@ -1019,7 +1019,7 @@ func writeEvidence(prop string, pc propCfg, tier string, base uint64, a *agg, wa
 	evDir := filepath.Join(verifDir, "evidence")
 	if os.Getenv("VERIF_REPO") != "" {
 		// a run against another tree (seeded change, background snapshot) is not evidence about /repo
-		evDir = filepath.Join(verifDir, ".build", "evidence-other-tree")
+		evDir = filepath.Join(verifDir, ".evidence-other-tree")
 	}
 	os.MkdirAll(evDir, 0o755)
 	if err := os.WriteFile(filepath.Join(evDir, prop+".json"), b, 0o644); err != nil {
